@@ -24,6 +24,7 @@ import (
 	ocispec "github.com/opencontainers/image-spec/specs-go/v1"
 	oras "oras.land/oras-go/v2"
 	"oras.land/oras-go/v2/content"
+	"oras.land/oras-go/v2/errdef"
 	"oras.land/oras-go/v2/registry"
 	"oras.land/oras-go/v2/verifharness/gen"
 )
@@ -67,6 +68,12 @@ type Mon struct {
 	Faults      []*Fault
 	Cancel      context.CancelFunc
 
+	// RaceNode, when >= 0, is pushed to the underlying destination by the
+	// wrapper itself just before the library's own push of that node reaches
+	// it (a concurrent writer winning the race): the library's push then
+	// meets already-exists.
+	RaceNode int
+	raced    bool
 	// latency injection
 	DelaySeed uint64
 	DelayMax  time.Duration // 0: no sleeping, only Gosched bursts
@@ -77,7 +84,7 @@ type Mon struct {
 
 // New creates a monitor for a DAG.
 func New(g *gen.DAG) *Mon {
-	return &Mon{G: g, FetchCount: map[int]int{}, PushCount: map[int]int{}, MountCount: map[int]int{}, Reached: map[string]int{}}
+	return &Mon{G: g, FetchCount: map[int]int{}, PushCount: map[int]int{}, MountCount: map[int]int{}, Reached: map[string]int{}, RaceNode: -1}
 }
 
 // Ops returns the logical progress counter (boundary operations started or finished).
@@ -418,8 +425,33 @@ func (d *Dst) Push(ctx context.Context, desc ocispec.Descriptor, r io.Reader) er
 		d.leave("push-fail", node)
 		return err
 	}
+	if node >= 0 && node == m.RaceNode {
+		m.mu.Lock()
+		first := !m.raced
+		m.raced = true
+		m.mu.Unlock()
+		if first {
+			// the other writer honours link-closure too: only a node whose
+			// successors are present is pushed
+			ok := true
+			for _, s := range m.G.SuccSet(node) {
+				if ex, err := d.U.Exists(ctx, m.G.Nodes[s].Desc); err != nil || !ex {
+					ok = false
+				}
+			}
+			if ok {
+				_ = d.U.Push(context.WithoutCancel(ctx), m.G.Nodes[node].Desc, bytes.NewReader(m.G.Nodes[node].Bytes))
+			}
+		}
+	}
 	err := d.U.Push(ctx, desc, r)
 	if err != nil {
+		if errors.Is(err, errdef.ErrAlreadyExists) {
+			// the content is there: for the accounting this push is complete
+			d.closure(ctx, node)
+			d.leave("push-done", node)
+			return err
+		}
 		d.leave("push-fail", node)
 		return err
 	}
